@@ -103,6 +103,33 @@ func propC02(h *H) {
 		}
 	}
 	h.St.Nontriv += len(classes)
+	// values that share memory: a value and a shorter window of the same backing
+	// array, a value and itself
+	if eq.IsValid() {
+		for i := 0; i < n; i++ {
+			x := gens[i]()
+			for _, y := range AliasVariants(x) {
+				for _, pr := range [][2]reflect.Value{{x, y}, {y, x}} {
+					ref := RefEqual(pr[0], pr[1], true)
+					if ref != RefEqual(pr[0], pr[1], false) {
+						continue // method-sensitive pairs are judged in the main loop
+					}
+					h.St.States++
+					res, pan := Call(eq, pr[0], pr[1])
+					h.St.Evals++
+					if pan != "" {
+						h.Violation("equal-panics", "aliased|"+panKey(pr[0], pr[1]), pan, pr[0], pr[1])
+						continue
+					}
+					if res[0].Bool() != ref {
+						d := Diff(pr[0], pr[1])
+						h.Violation("equal-vs-ref", fmt.Sprintf("aliased-memory|derived=%v|%s|%s|%s", res[0].Bool(), d.Kind, d.Type, d.Ctx),
+							fmt.Sprintf("the two arguments share memory (same backing array / same addresses): derived Equal=%v reference=%v, first difference at %q (%s)", res[0].Bool(), ref, d.Path, d.Kind), pr[0], pr[1])
+					}
+				}
+			}
+		}
+	}
 }
 
 func panKey(x, y reflect.Value) string {
